@@ -67,10 +67,26 @@ def gen(rng, budget, tier):
         if rng.random() < (0.15 if tier == "quick" else 0.4):
             kill = rng.randrange(1, 30)
         yield f"c15.write {hexs(q.encode())} {groups_arg(rng, sels, n)} {final} {pre} {kill}"
+    # seeded round 6: several writes of one run
+    yield from _gen_seq(rng, 40 if tier == "quick" else 600)
+
+
+def _gen_seq(rng, n):
+    """one client run: interim writes (finalResult=false) followed by the final one, on one Query value and group set"""
+    for _ in range(n):
+        ops = rng.sample(["count", "sum", "max"], rng.choice([1, 2]))
+        if "count" not in ops:
+            ops[0] = "count"
+        sels = [(f"{op}(x)", op) for op in ops]
+        q = "select " + ",".join(s for s, _ in sels) + " from T group by h order by count(x)"
+        append = rng.random() < 0.7
+        q += " outfile " + ("append " if append else "") + "@O"
+        pre = rng.choice(["none", "none", "-", hexs(b"count(x)\n7\n")])
+        yield f"c15.seq {hexs(q.encode())} {groups_arg(rng, sels, rng.choice([1, 2, 4]))} {rng.choice([0, 1, 1, 2, 3])} {pre}"
 
 
 def model_case(case, impl):
-    if case.startswith("c15.race"):
+    if case.startswith("c15.race") or case.startswith("c15.seq"):
         return case
     f = case.split(" ")
     if f[5] != "0":
@@ -90,11 +106,11 @@ def _proj(s):
     import re
     if s.startswith("killed;"):
         return s
-    m = re.search(r";out=([^;]*);", s)
+    m = re.search(r"(?:^|;)out=([^;]*);", s)
     return m.group(1) if m else s
 
 
-PROJ = {"c15.write": _proj}
+PROJ = {"c15.write": _proj, "c15.seq": _proj}
 
 
 def _canon(s):
@@ -106,7 +122,7 @@ def _canon(s):
     return re.sub(pre + r"3[0-9]3[0-9]" + post + r"(?:3[0-9])+", b"/d".hex(), s)
 
 
-CANON = {"c15.write": _canon}
+CANON = {"c15.write": _canon, "c15.seq": _canon}
 
 
 def targeted(broken_cases):
